@@ -17,7 +17,7 @@ RULE = (
     "Hypothesis draws an operator-tree spec from the C02 grammar (variables / md-variables, DenseArray, "
     "TimeDependentDenseArray, Scalar, SparseArray, Projection, ProjectionList, arithmetic nodes, function applications, "
     "time / iterate shifts) on a generated md-grid, plus a single-site mutation. (a) Two independent builds of the same "
-    "spec must have equal _key() and hash(). (b) The mutated tree must have a different key. Mutations: one scalar value, "
+    "spec must have equal _key() and hash(). (b) The mutated tree must have a different key. Mutations: one scalar value (by 1, by a relative 1e-4 / 1e-7 / 1e-12, or by one unit in the last place), "
     "one array entry, one matrix entry / format / shape, variable identity (name, domain, sub-variable order), "
     "operation kind, operand order of a non-commutative node (both op-op and the forward / reflected pair `a o c` vs `c o a` with a Python literal c), one projection range index, one domain index, range "
     "size, DOMAIN SIZE, and projections with > 1000 indices that differ only in the middle of the index array. "
@@ -35,7 +35,7 @@ DESIGN_REF = "DESIGN.md section 4, C45"
 ASSUMPTIONS = ["AbstractFunction keys 'will be covered later' (code comment): function identity is not required to show in keys",
                "time/iterate-shifted copies share the key of the original by design"]
 REQUIRED = {"mut-dense": 0.01, "mut-const": 0.02, "mut-mat": 0.05, "mut-leaf": 0.03, "mut-op": 0.03, "mut-swap": 0.004,
-            "mut-proj": 0.05, "bigproj": 0.015, "mut-side": 0.01}
+            "mut-proj": 0.05, "bigproj": 0.015, "mut-side": 0.01, "mut-fine": 0.01}
 
 MUT_PROJ = ["ran", "dom", "rsize", "dsize"]
 
@@ -147,6 +147,19 @@ def _sites(nd, S, under_shift=False, out=None):
     return out
 
 
+def _bump(x, v):
+    """A different float: by 1, or by a small relative amount down to one unit in the last place (any difference in
+    a leaf datum must show in the key, not only differences in the leading digits)."""
+    how = (v // 3) % 6
+    x = float(x)
+    if how <= 1:
+        return x + 1.0, ""
+    if how == 5:
+        return float(np.nextafter(x, np.inf)), "-fine"
+    y = x * (1.0 + [1e-4, 1e-7, 1e-12][how - 2]) if x != 0.0 else [1e-4, 1e-7, 1e-12][how - 2]
+    return (y, "-fine") if y != x else (float(np.nextafter(x, np.inf)), "-fine")
+
+
 def mutate(tree, S, site, variant, prefer):
     """Returns (mutated deep copy, label) or (None, None) if the tree has no mutable site."""
     t = copy.deepcopy(tree)
@@ -160,15 +173,15 @@ def mutate(tree, S, site, variant, prefer):
     v = variant
     if kind == "dense":
         j = v % len(nd["c"])
-        nd["c"][j] = nd["c"][j] + 1.0
-        return t, "mut-dense"
+        nd["c"][j], fine = _bump(nd["c"][j], v)
+        return t, "mut-dense" + fine
     if kind == "const":
         if isinstance(nd["c"], list):
             j = v % len(nd["c"])
-            nd["c"][j] = nd["c"][j] + 1.0
+            nd["c"][j], fine = _bump(nd["c"][j], v)
         else:
-            nd["c"] = nd["c"] + 1.0
-        return t, "mut-const"
+            nd["c"], fine = _bump(nd["c"], v)
+        return t, "mut-const" + fine
     if kind in ("op", "opc"):
         ops = [o for o in "+-*/^" if o != nd["f"]]
         nd["f"] = ops[v % len(ops)]
@@ -197,7 +210,7 @@ def mutate(tree, S, site, variant, prefer):
         choice = v % 4
         if choice == 0 and M["entries"]:
             e = M["entries"][(v // 4) % len(M["entries"])]
-            e[2] = e[2] + 1
+            e[2] = e[2] + 1 if (v // 8) % 2 == 0 else float(np.nextafter(float(e[2]), np.inf))
         elif choice == 1:
             M["fmt"] = {"csr": "csc", "csc": "coo", "coo": "csr"}[M["fmt"]]
         elif choice == 2:
@@ -286,6 +299,8 @@ def check(spec):
         op3 = build_ops(mt, S)
         k3 = op3._key()
         labels.append(lab)
+        if lab.endswith("-fine"):
+            labels += [lab[:-5], "mut-fine"]
         if lab.startswith("mut-proj"):
             labels.append("mut-proj")
             nontrivial = True
